@@ -233,6 +233,33 @@ func loadPkgs(repo string, overlay map[string][]byte, tags string) ([]*packages.
 	return pkgs, nil
 }
 
+// knownFuncs: the inventory the rule tables were calibrated on (nil: no inventory, every function counts as known).
+var knownFuncs map[string]bool
+
+// isNewFunc: f is a declared function of the module that the inventory does not list - a helper introduced after the
+// rules were written. The normalisation inlines its calls where it can; where it cannot (the helper defers, the call
+// sits under && / ||), rules that ask "does F call G" still treat the helper's body as part of F (callsTo).
+func isNewFunc(f *ssa.Function) bool {
+	if knownFuncs == nil || f == nil || f.Pkg == nil || f.Parent() != nil || f.Synthetic != "" || f.Blocks == nil {
+		return false
+	}
+	path := f.Pkg.Pkg.Path()
+	if path != modPath && !strings.HasPrefix(path, modPath+"/") {
+		return false
+	}
+	rel := strings.TrimPrefix(strings.TrimPrefix(path, modPath), "/")
+	if rel == "" {
+		rel = "."
+	}
+	recv := ""
+	if r := f.Signature.Recv(); r != nil {
+		if n, ok := derefT(r.Type()).(*types.Named); ok {
+			recv = n.Obj().Name()
+		}
+	}
+	return !knownFuncs[rel+":"+recv+"."+f.Name()]
+}
+
 // load type-checks the module and builds its SSA form. When the tree declares functions that are not
 // in the inventory (normalize.go), their same-package calls are inlined first and the analysis runs
 // on the normalised program; positions are mapped back to the files on disk.
@@ -242,7 +269,9 @@ func load(repo string, overlay map[string][]byte, tags string) (*A, error) {
 		return nil, err
 	}
 	var norm *normResult
+	knownFuncs = nil
 	if inv, ierr := loadInventory(inventoryPath()); ierr == nil && os.Getenv("VERIF_NO_NORMALIZE") == "" {
+		knownFuncs = inv
 		fresh := false
 		for k := range declaredFuncs(repo, overlay) {
 			if !inv[k] {
